@@ -146,17 +146,15 @@ def check(ctx):
     sw = c.kf_switches("C04", KFS)
     if os.environ.get("VERIF_NO_KF"):          # self-test only: show that the known findings are violations without their switch
         sw = {k: False for k in sw}
-    # (a) model checking
+    # (a) model checking (models of the repaired tree: FixSeekGap = TRUE, callers' low mark = MaxMsg + 1 token)
     c.tlc_must_pass(ctx, "reader-inv", "LowMarkBuf.tla", "LowMarkBuf_inv_quick.cfg" if quick else "LowMarkBuf_inv_thorough.cfg", timeout=3000)
-    c.tlc_must_pass(ctx, "reader-inv-repaired", "LowMarkBuf.tla", "LowMarkBuf_inv_fixed.cfg", timeout=3000)
-    c.tlc_must_pass(ctx, "bufparse-callers", "BufParse.tla", "BufParse_callers.cfg", timeout=3000)
-    c.tlc_must_pass(ctx, "bufparse-lowmark+1", "BufParse.tla", "BufParse_fixed.cfg" if quick else "BufParse_fixed_thorough.cfg", timeout=3000)
-    # the model must exhibit the finding with the callers' low mark (else the KF action would be dead weight)
-    strict = c.tlc(os.path.join(c.SPEC, "BufParse.tla"), os.path.join(c.SPEC, "mc", "BufParse_callers_strict.cfg"), ctx.path("tlc-bufparse-strict"),
-                   timeout=3000, keep_log=ctx.path("tlc-bufparse-strict.log"))
-    ctx.extra["bufparse_model_exhibits_maxmsg_window_finding"] = strict.violation == "ChunkIndependent"
-    if strict.violation != "ChunkIndependent":
-        raise c.ToolError("BufParse with LM = MaxMsg was expected to violate ChunkIndependent (model of the known finding); got %s" % strict.violation)
+    c.tlc_must_pass(ctx, "bufparse-callers", "BufParse.tla", "BufParse_fixed.cfg" if quick else "BufParse_fixed_thorough.cfg", timeout=3000)
+    # the model of the pinned snapshot (low mark = MaxMsg exactly) must still exhibit the (repaired) max-message-window finding
+    snap = c.tlc(os.path.join(c.SPEC, "BufParse.tla"), os.path.join(c.SPEC, "mc", "BufParse_snapshot.cfg"), ctx.path("tlc-bufparse-snapshot"),
+                 timeout=3000, keep_log=ctx.path("tlc-bufparse-snapshot.log"))
+    ctx.extra["snapshot_model_exhibits_maxmsg_window_finding"] = snap.violation == "ChunkIndependent"
+    if snap.violation != "ChunkIndependent":
+        raise c.ToolError("BufParse with LM = MaxMsg was expected to violate ChunkIndependent (model of the repaired finding); got %s" % snap.violation)
     # (b) scenario emission: every terminal behaviour of the bounded reader model
     scn = ctx.path("scenarios.ndjson")
     n_scn = 0
@@ -241,6 +239,19 @@ def check(ctx):
     ctx.extra["design_conformance"] = {"steps": info1["replayed"], "mismatches": info1["drift"]}
     ctx.extra["paths_hit"] = {k: info1[k] for k in ("compaction_offset_nonzero", "seeks_inside_window", "short_reads", "one_byte_reads", "fills_at_exactly_lm")}
     ctx.extra["chunk"] = {k: v for k, v in info2.items() if k not in ("cases", "lines")}
+    kinds = {}
+    for evs in cases1.values():
+        for e in evs:
+            key = "reader." + e["ev"] + (".stale" if e["ev"] in ("fill", "read") and e["hash"] != e["src_hash"] else "") + (".failed" if e["ev"] == "seek" and not e["ok"] else "")
+            kinds[key] = kinds.get(key, 0) + 1
+    for evs in cases2.values():
+        kind = "?"
+        for e in evs:
+            if e["ev"] == "run":
+                kind = e["kind"]
+            key = "chunk." + (kind + "." if e["ev"] in ("msg", "end") else "") + e["ev"]
+            kinds[key] = kinds.get(key, 0) + 1
+    ctx.extra["trace_events_by_kind"] = kinds
     ctx.extra["caller_low_mark"] = "DLT_MAX_STORAGE_MSG_SIZE + %d" % lm_extra
     ctx.extra["kf_switches"] = sw
     ctx.extra["kf_cases"] = {"reader": len([k for k in v1.known if k not in v1.violations]), "chunk": len([k for k in v2.known if k not in v2.violations])}
